@@ -74,7 +74,7 @@ def collect(tier, seed, res, oracles):
     return terms, keep
 
 
-def main(tier, seed, replay=None, prop=PROP, oracles=(pc.oracle_c07,), props_file=None):
+def main(tier, seed, replay=None, prop=PROP, oracles=(pc.oracle_c07,), props_file=None, proofs=None):
     res = core.Result(prop, tier, seed)
     res.rule = ('corpus of minimised failing schedules; every schedule (up to commuting environment steps) of the listed small '
                 'configurations (workers, inputs, extra pending, max deaths, retry) enumerated depth-first on the real Pool.run with scripted '
@@ -85,7 +85,7 @@ def main(tier, seed, replay=None, prop=PROP, oracles=(pc.oracle_c07,), props_fil
                        'a worker that neither answers nor dies is outside the property (the run is cut off as "blocked")',
                        'workers are not closed by the user while run() is in progress; no worker sends a bare None message']
     res.trusted.append('hand-written model Pool/Model.v (tied to pool.py by differential execution only) and harness/sched_pool.py')
-    core.prove(res, prop, [], PROOFS, props_file=props_file, run_files=['theories/Pool/Run.v'])
+    core.prove(res, prop, [], proofs or PROOFS, props_file=props_file, run_files=['theories/Pool/Run.v'])
     import sys
     sys.path.insert(0, core.REPO)
     if replay:
